@@ -33,6 +33,11 @@ ObsInit == [call |-> EmptyFun, sub |-> EmptyFun,
             ended |-> {},            \* server connections whose ServeHTTP returned
             closerStart |-> {}, closerEnd |-> {},
             dialsAfterClose |-> 0, dials |-> 0, srvCancels |-> {},
+            cfgErrors |-> FALSE, cfgNoReconnect |-> FALSE, cfgHooks |-> FALSE,   \* client configuration of the scenario (from the reset event)
+            backoffSeen |-> FALSE,   \* a backoff delay was computed since the last dial
+            badBackoff |-> 0,        \* redials not preceded by their own backoff delay, or with a delay outside [min, max] / below the schedule
+            redialsNoReconnect |-> 0,
+            serverUp |-> TRUE, faultAfterUp |-> FALSE,
             respFrames |-> EmptyFun, \* <<conn, id>> -> number of response frames
             reqIds |-> EmptyFun]     \* <<conn, id>> -> token carried by the request frame
 
@@ -88,12 +93,25 @@ ObsStep(o, e) ==
            [] e.kind = "chval" /\ e.dir = "s2c" ->
                 IF <<e.conn, e.chid>> \in o1.chanResp THEN o1 ELSE [o1 EXCEPT !.valBeforeResp = @ + 1]
            [] OTHER -> o1
-    [] e.ev = "WireFault"  -> [o EXCEPT !.faults = @ + 1]
+    [] e.ev = "WireFault"  -> [o EXCEPT !.faults = @ + 1, !.faultAfterUp = TRUE]
     [] e.ev = "ConnEnded"  -> [o EXCEPT !.ended = @ \cup {e.srvconn}]
     [] e.ev = "SrvCancel"  -> [o EXCEPT !.srvCancels = @ \cup {e.srvconn}]
     [] e.ev = "CloserStart" -> [o EXCEPT !.closerStart = @ \cup {e.cli}]
     [] e.ev = "CloserEnd"   -> [o EXCEPT !.closerEnd = @ \cup {e.cli}]
-    [] e.ev = "DialStart"   -> [o EXCEPT !.dials = @ + 1, !.dialsAfterClose = IF e.cli \in o.closerEnd THEN @ + 1 ELSE @]
+    [] e.ev = "DialStart"   -> [o EXCEPT !.dials = @ + 1, !.dialsAfterClose = IF e.cli \in o.closerEnd THEN @ + 1 ELSE @,
+                                         !.redialsNoReconnect = IF ~e.first /\ o.cfgNoReconnect THEN @ + 1 ELSE @,
+                                         !.badBackoff = IF ~e.first /\ ~o.backoffSeen /\ o.cfgHooks THEN @ + 1 ELSE @,
+                                         !.backoffSeen = FALSE]
+    [] e.ev = "h:backoff.next" /\ e.min > 0 /\ e.max < 1000000 ->      \* reconnect backoff (method retry uses a 10 min cap)
+         LET a == e.attempt
+             \* the hook reports the delay before it is capped at max, so only the lower bound is meaningful here
+             \* (an overflowed computation shows up as a negative delay)
+             okRange == e.d >= e.min
+             \* d >= min * 1.5^a up to the cap (integer form, small attempts only: TLC integers are 32 bit)
+             okSched == IF a >= 0 /\ a <= 6 THEN ((e.d + 1) * (2 ^ a) >= e.min * (3 ^ a)) \/ e.d >= e.max ELSE TRUE
+         IN [o EXCEPT !.backoffSeen = TRUE, !.badBackoff = IF okRange /\ okSched THEN @ ELSE @ + 1]
+    [] e.ev = "ServerDown"  -> [o EXCEPT !.serverUp = FALSE]
+    [] e.ev = "ServerUp"    -> [o EXCEPT !.serverUp = TRUE, !.faultAfterUp = FALSE]
     [] OTHER -> o
 
 (* ------------------------------------------------------------------ *)
@@ -136,7 +154,19 @@ Always_C08(o) ==
 Always_C14(o) == IF o.badFrames > 0 THEN {<<"C14", "malformed-or-interleaved-frame", 0>>} ELSE {}
 Always_C18(o) == IF o.dialsAfterClose > 0 THEN {<<"C18", "redial-after-close", 0>>} ELSE {}
 
-Always(o) == Always_C02(o) \cup Always_C04(o) \cup Always_C06(o) \cup Always_C07(o) \cup Always_C08(o) \cup Always_C14(o) \cup Always_C18(o)
+\* C05: redial discipline and error mapping
+Always_C05(o) ==
+  (IF o.badBackoff > 0 THEN {<<"C05", "redial-without-proper-backoff", 0>>} ELSE {})
+  \cup (IF o.redialsNoReconnect > 0 THEN {<<"C05", "no-reconnect-client-redialled", 0>>} ELSE {})
+  \cup {<<"C05", "connection-error-mapping", t>> :
+          t \in {t \in Calls(o) : o.call[t].outcome = "conn" /\ o.call[t].tr = "ws" /\ o.call[t].detail # (IF o.cfgErrors THEN "typed" ELSE "generic")}}
+
+\* C05: whatever fault occurs a WebSocket call fails with the connection error (or the exit error), not with something else
+Always_C05b(o) ==
+  {<<"C05", "call-failed-with-non-connection-error:" \o o.call[t].outcome, t>> :
+     t \in {t \in Calls(o) : o.call[t].outcome \in {"other", "proto"} /\ o.call[t].tr = "ws" /\ o.faults > 0 /\ ~o.call[t].cancelReq}}
+
+Always(o) == Always_C05(o) \cup Always_C05b(o) \cup Always_C02(o) \cup Always_C04(o) \cup Always_C06(o) \cup Always_C07(o) \cup Always_C08(o) \cup Always_C14(o) \cup Always_C18(o)
 
 \* at quiescence q (a Quiesce event): nothing may be outstanding
 Quiet(o, q) ==
@@ -144,6 +174,12 @@ Quiet(o, q) ==
   {<<"C03", "call-never-returned", t>> : t \in W}
   \cup {<<"C02", "call-lost", t>> : t \in IF o.faults = 0 /\ o.closerStart = {} THEN L ELSE {}}
   \cup (IF q.probe \in {"hung", "foreign"} THEN {<<"C03", "probe-" \o q.probe, 0>>} ELSE {})
+  \* C05: a reconnecting client is usable again once the server is reachable (the probe is issued after recovery)
+  \cup (IF q.probe \notin {"ok", "none"} /\ ~o.cfgNoReconnect /\ o.serverUp /\ o.closerStart = {} THEN {<<"C05", "client-did-not-heal:" \o q.probe, 0>>} ELSE {})
+  \* C05: a retry-tagged call rides out the outage and returns what a handler produced
+  \cup {<<"C05", "retry-call-surfaced-" \o o.call[t].outcome, t>> :
+          t \in {t \in Calls(o) : o.call[t].kind = "retry" /\ o.call[t].ends >= 1 /\ o.call[t].outcome \notin {"ok", "herr"}
+                                  /\ ~o.cfgNoReconnect /\ o.serverUp /\ o.closerStart = {} /\ q.probe = "ok"}}
   \cup {<<"C04", "notification-not-executed-exactly-once", t>> :
           t \in {t \in Calls(o) : o.call[t].kind = "notify" /\ o.faults = 0 /\ o.closerStart = {} /\ o.call[t].ends = 1 /\ o.call[t].outcome = "ok" /\ o.call[t].execs # 1}}
   \cup {<<"C07", "stream-incomplete-on-healthy-link", t>> :
